@@ -72,12 +72,29 @@ func (g *gen) Add(name string, typs []types.Type) (string, error) {
 	}
 	sliceType, ok := typs[0].(*types.Slice)
 	if !ok {
+		// An untyped constant takes the type of the value it is compared with:
+		// deriveMin(x, 0) is a call with two values of the type of x.
+		if isUntyped(typs[1]) && !isUntyped(typs[0]) && types.AssignableTo(typs[1], typs[0]) {
+			return g.SetFuncName(name, typs[0], typs[0])
+		}
+		if isUntyped(typs[0]) && !isUntyped(typs[1]) && types.AssignableTo(typs[0], typs[1]) {
+			return g.SetFuncName(name, typs[1], typs[1])
+		}
 		return "", fmt.Errorf("%s, the first argument, %s, is not of type slice", name, typs[0])
 	}
 	if !types.AssignableTo(typs[1], sliceType.Elem()) {
 		return "", fmt.Errorf("%s, the second argument, %s, is not is assignable to an element that of the slice type %s", name, typs[1], typs[0])
 	}
+	if isUntyped(typs[1]) {
+		// as the default of a list it takes the type of the elements: deriveMin(xs, 0) and deriveMin(xs, 0.5) are one function
+		return g.SetFuncName(name, typs[0], sliceType.Elem())
+	}
 	return g.SetFuncName(name, typs[0], typs[1])
+}
+
+func isUntyped(typ types.Type) bool {
+	b, isBasic := typ.(*types.Basic)
+	return isBasic && b.Info()&types.IsUntyped != 0
 }
 
 func (g *gen) Generate(typs []types.Type) error {
